@@ -74,6 +74,8 @@ type FuncContract struct {
 	AcquiresLevelDeclared bool
 	AcquiresLevel int // lowest lock level this function may acquire (0: acquires no levelled lock)
 	Aliases  bool // results may alias the arguments at arbitrary offsets (keep slice offsets symbolic)
+	ArithTrusted string
+	TrustedAccess map[string]string
 	Holds    []*Clause
 	AssumeAtLock []*Clause
 	Unverified bool
@@ -286,6 +288,23 @@ func (cs *Contracts) LoadContractFile(path, pkg string, repoStyle bool) error {
 			cur.LoopInv[n] = append(cur.LoopInv[n], &Clause{Kind: "invariant", Props: props, Name: label, Expr: e, Src: f[2], File: path, Line: lineNo, Loop: n})
 		case "abstract":
 			cur.Assumed = true
+		case "trusted-access":
+			// trusted-access T.f reason... : accesses to this guarded field in this function are
+			// exempt from the lock discipline (listed as an assumption)
+			f := strings.SplitN(rest, " ", 2)
+			if cur.TrustedAccess == nil {
+				cur.TrustedAccess = map[string]string{}
+			}
+			why := ""
+			if len(f) > 1 {
+				why = f[1]
+			}
+			cur.TrustedAccess[pkg+"."+f[0]] = why
+		case "arith-trusted":
+			cur.ArithTrusted = rest
+			if rest == "" {
+				cur.ArithTrusted = "integer sums assumed not to overflow"
+			}
 		case "aliases":
 			cur.Aliases = true
 		case "acquires-level":
